@@ -4587,3 +4587,110 @@ def c16_recv_keeps_partial_delivery(env):
 
 
 REGISTRY.setdefault("C16", []).append(c16_recv_keeps_partial_delivery)
+
+
+def c16_send_side(env):
+    out = []
+    # -- (a) the credit taken for a delivery and the delivery itself
+    o = Obligation("c16_send_does_not_suspend_between_credit_and_queueing", "C16")
+    o.collect_all = True
+    o.desc = "SenderLink::send_payload: once the credit for a delivery has been taken (get_delivery_tag_or_detached is ready: link-credit - 1, delivery-count + 1) the future must not suspend before the delivery has been handed to the session -- a send future dropped there has consumed a credit for a delivery the receiver never sees, and the link is one credit short for good (later sends starve once the receiver's grant is used up)"
+    fn = env.fn(r"^sender_link::<impl at [^>]*>::send_payload::\{closure#0\}$")
+    o.functions = [fn.name]
+    states = _coroutine_states(fn)
+    o.bounds = [f"coroutine body from every resume state {states} through one poll; every inner future ready or pending"]
+    o.assumes = ["dropping a future drops its locals and undoes nothing (Rust semantics); consume(1) takes the credit (C08)"]
+    pat_tag = r"get_delivery_tag_or_detached<.*>\(\)\} as (futures_util::|std::future::)?Future>::poll$"
+
+    def replay(m):
+        return "scn cancel_send_credit", (lambda js: js.get("panic") or js["starved"])
+
+    n = 0
+    seen_q = set()
+    for k in states:
+        ex, paths = _run_from_state(env, fn, k, max_visits=2, stop=None)
+        for i, p in enumerate(paths):
+            if p.end != "return" or not isinstance(p.ret, mir.Agg) or "#d" not in p.ret:
+                continue
+            n += 1
+            polls = [c for c in p.calls if re.search(r"Future>::poll$", c[0])]
+            if not polls:
+                continue
+            last = polls[-1][0]
+            if re.search(pat_tag, last):
+                continue  # still waiting for credit: nothing has been taken
+            H = ex.assumptions + p.cond + [p.ret["#d"] == 1]
+            s = z3.Solver()
+            s.add(*H)
+            if s.check() != z3.sat:
+                continue
+            qn = f"suspends-after-taking-the-credit:awaiting {_short_callee(last)}"
+            if (k, qn) in seen_q:
+                continue
+            seen_q.add((k, qn))
+            o.prove(f"state{k}:{qn}", H, z3.BoolVal(False), replay=replay)
+    o.cover("paths", [z3.BoolVal(n > 0)])
+    out.append(o)
+
+    # -- (b) the frames of one delivery
+    o = Obligation("c16_send_does_not_suspend_between_the_frames_of_a_delivery", "C16")
+    o.collect_all = True
+    o.desc = "SenderLink::send_transfer_without_modifying_unsettled_map (a message larger than the link's max-message-size goes out as several transfers): once the first frame (more=true) has been handed to the session the future must not suspend before the last one has -- a send future dropped in between leaves a delivery on the wire that is never completed or aborted"
+    fn = env.fn(r"^sender_link::<impl at [^>]*>::send_transfer_without_modifying_unsettled_map::\{closure#0\}$")
+    o.functions = [fn.name]
+    states = _coroutine_states(fn)
+    o.bounds = [f"coroutine body from every resume state {states} through one poll; loops unrolled 2 times; every inner future ready or pending; the resume states in which a frame of the delivery is already queued are found as a fixed point"]
+    o.assumes = ["send_transfer queues one frame on the link->session channel"]
+
+    def replay2(m):
+        return "scn cancel_send_multi_frame", (lambda js: js.get("panic") or js["partial_deliveries"] > 0)
+
+    n = 0
+    seen_q = set()
+    pat_send = r"send_transfer\(\)\} as (futures_util::|std::future::)?Future>::poll$"
+    per_state = {}
+    for k in states:
+        ex, paths = _run_from_state(env, fn, k, max_visits=2, stop=None)
+        per_state[k] = (ex, [p for p in paths if p.end == "return" and isinstance(p.ret, mir.Agg) and "#d" in p.ret])
+    partial = set()
+    changed = True
+    while changed:
+        changed = False
+        for k, (ex, paths) in per_state.items():
+            for p in paths:
+                polls = [c for c in p.calls if re.search(pat_send, c[0])]
+                e = _end_state(p)
+                if e in (None, 1, 2) or e in partial:
+                    continue
+                if len(polls) >= 2 or (k in partial and polls):
+                    partial.add(e)
+                    changed = True
+    for k, (ex, paths) in per_state.items():
+        for i, p in enumerate(paths):
+            n += 1
+            polls = [c for c in p.calls if re.search(pat_send, c[0])]
+            if not polls or not (len(polls) >= 2 or k in partial):
+                continue  # suspended before the first frame of the delivery: nothing is on the wire yet
+            H = ex.assumptions + p.cond + [p.ret["#d"] == 1]
+            s = z3.Solver()
+            s.add(*H)
+            if s.check() != z3.sat:
+                continue
+            qn = "suspends-with-a-partial-delivery-queued:awaiting send_transfer"
+            if (k, qn) in seen_q:
+                continue
+            seen_q.add((k, qn))
+            o.prove(f"state{k}:{qn}", H, z3.BoolVal(False), replay=replay2)
+    o.cover("paths", [z3.BoolVal(n > 0)])
+    out.append(o)
+    return out
+
+
+REGISTRY.setdefault("C16", []).append(c16_send_side)
+
+
+def c05_nnt(env):
+    return [x for x in _nnt_obligations(env, "C03") if _retag(x, "C05", x.name.replace("c03_", "c05_"))]
+
+
+REGISTRY.setdefault("C05", []).append(c05_nnt)
